@@ -44,8 +44,7 @@ func (fr *frame) instr(in ssa.Instruction, st *State) {
 		name, ft := FieldMapName(pt, x.Field)
 		l := &loc{kind: locField, base: base.T, mapName: name, sort: SortOf(ft), gt: ft}
 		fr.locs[x] = l
-		f := s.declareFun("sub:"+name, []string{"Int"}, "Int")
-		fr.vals[x] = TV{T: fmt.Sprintf("(%s %s)", f, base.T), S: "Int", GT: x.Type()}
+		fr.vals[x] = TV{T: s.subRef(name, base.T), S: "Int", GT: x.Type()}
 	case *ssa.Field:
 		base := fr.val(x.X, st)
 		name, ft := FieldMapName(x.X.Type(), x.Field)
@@ -441,6 +440,10 @@ func (fr *frame) binop(op token.Token, a, b TV, rt types.Type, st *State) TV {
 	case "Str":
 		switch op {
 		case token.ADD:
+			if a.Lit != nil && b.Lit != nil {
+				lit := *a.Lit + *b.Lit
+				return TV{T: s.strConst(lit), S: "Str", GT: rt, Lit: &lit}
+			}
 			t := s.define("cat", "Str", fmt.Sprintf("(sconcat %s %s)", a.T, b.T))
 			s.assume(st, fmt.Sprintf("(= (slen %s) (+ (slen %s) (slen %s)))", t, a.T, b.T))
 			return TV{T: t, S: "Str", GT: rt}
@@ -521,9 +524,9 @@ func (fr *frame) convert(x *ssa.Convert, st *State) {
 		// Go truncates toward zero
 		fr.vals[x] = TV{T: fmt.Sprintf("(ite (>= %s 0.0) (to_int %s) (- (to_int (- %s))))", v.T, v.T, v.T), S: to, GT: x.Type()}
 	case from == "Bytes" && to == "Str":
-		fr.vals[x] = TV{T: "(cont " + v.T + ")", S: to, GT: x.Type()}
+		fr.vals[x] = TV{T: "(cont " + v.T + ")", S: to, GT: x.Type(), Lit: v.Lit}
 	case from == "Str" && to == "Bytes":
-		fr.vals[x] = TV{T: "(mk-bytes false " + v.T + ")", S: to, GT: x.Type()}
+		fr.vals[x] = TV{T: "(mk-bytes false " + v.T + ")", S: to, GT: x.Type(), Lit: v.Lit}
 	default:
 		f := s.declareFun("conv:"+sortTag(from)+":"+sortTag(to), []string{from}, to)
 		nv := TV{T: s.define(fr.name(x), to, fmt.Sprintf("(%s %s)", f, v.T)), S: to, GT: x.Type()}
